@@ -269,7 +269,7 @@ theorem matches_star_index {n : Str} (hn : simpleName n = true) (targets : List 
     simp only [simpleName, Bool.and_eq_true, List.all_eq_true] at hn
     have := hn.2 c hc
     simp [okChar] at this
-    exact this.1.1.1.2
+    exact this.1.1.2
   rw [matchPat_prefix n _ _ hstar]
   obtain ⟨h1, h2, _⟩ := printNat_spec i
   cases hp : printNat i with
